@@ -601,9 +601,11 @@ func buildRingFixtures(seed int64) *ringFixtures {
 
 func (f *ringFixtures) add(tag string) ringOp { return ringOp{kind: "add", tag: tag, mat: f.mats[tag]} }
 
-func setState(tag string, s api.KeyState) ringOp { return ringOp{kind: "set-state", tag: tag, state: s} }
-func setCurrent(tag string) ringOp                { return ringOp{kind: "set-current", tag: tag} }
-func destroy(tag string) ringOp                   { return ringOp{kind: "destroy", tag: tag} }
+func setState(tag string, s api.KeyState) ringOp {
+	return ringOp{kind: "set-state", tag: tag, state: s}
+}
+func setCurrent(tag string) ringOp { return ringOp{kind: "set-current", tag: tag} }
+func destroy(tag string) ringOp    { return ringOp{kind: "destroy", tag: tag} }
 
 func (f *ringFixtures) bystanderScript() []ringOp {
 	on := func(o ringOp) ringOp { o.ring = ringBystander; return o }
@@ -676,7 +678,9 @@ func (f *ringFixtures) followUps(m *mRing, fop ringOp, thorough bool) []followUp
 	if stateKey != nil {
 		out = append(out, followUp{"set-state", []ringOp{setState(stateKey.tag, nextState[stateKey.state])}})
 	}
-	destroyKey := pick(func(k *mKey) bool { return k.tag != m.current && api.KeyStateTransitionValid(k.state, api.KeyDestroyed) })
+	destroyKey := pick(func(k *mKey) bool {
+		return k.tag != m.current && api.KeyStateTransitionValid(k.state, api.KeyDestroyed)
+	})
 	if destroyKey == nil {
 		destroyKey = pick(func(k *mKey) bool { return api.KeyStateTransitionValid(k.state, api.KeyDestroyed) })
 	}
@@ -828,7 +832,7 @@ func (m *monitor) runRingJob(kind string, j ringJob, base *ringBase, extraTorn i
 	r.Count("ring_fault_free_traces", 1)
 	r.Count("ring_fault_free_calls", int64(len(c0.trace)))
 	r.SetAdd("ring_operations", j.hist.name+"/"+j.fop.name)
-	r.SetAdd("formats", kind)
+	r.SetAdd("ring_formats", kind)
 	r.SampleN("ring-trace:"+kind, 1, map[string]interface{}{"what": "ring-level fault-free trace (handle kept open)", "format": kind, "history": j.hist.name,
 		"op": j.fop.op.String(), "calls": classes(c0.trace)})
 
@@ -1000,7 +1004,7 @@ func (m *monitor) ringCase(c0 *ringCtx, call ksrig.FaultCall, fc faultCase, fu f
 
 // judge compares an observation with the candidates. Returns the name of the matching candidate ("" if none; then the
 // differences from the nearest candidate have been reported).
-func (m *monitor) judge(c *ringCtx, phase string, o, ob *oRing, names []string, cands []*mRing, by *mRing, touched map[string]bool) string {
+func (m *monitor) judge(c *ringCtx, phase string, o, ob *oRing, names []string, cands []*mRing, by *mRing, touched map[string]bool, prefer string) string {
 	r := m.r
 	detail := func() map[string]interface{} {
 		d := map[string]interface{}{"observed_target_ring": o.render(), "observed_bystander_ring": ob.render()}
@@ -1022,19 +1026,25 @@ func (m *monitor) judge(c *ringCtx, phase string, o, ob *oRing, names []string, 
 		}
 	}
 	best, bestDiffs := -1, []ringDiff(nil)
+	match := ""
 	for i := len(cands) - 1; i >= 0; i-- { // "old" wins a tie: the caller was told the operation failed
 		d, n, dups := compareRing(o, cands[i])
 		if len(d) == 0 {
-			r.Count("ring_keys_compared", int64(n))
-			r.Count("ring_duplicate_added_keys_tolerated", int64(dups))
-			return names[i]
+			if match == "" {
+				r.Count("ring_keys_compared", int64(n))
+				r.Count("ring_duplicate_added_keys_tolerated", int64(dups))
+			}
+			if match == "" || names[i] == prefer {
+				match = names[i] // both describe it (the follow-up overwrote what the operation writes): the one seen before stays
+			}
+			continue
 		}
 		if best < 0 || len(d) <= len(bestDiffs) {
 			best, bestDiffs = i, d
 		}
 	}
-	if best < 0 {
-		return ""
+	if match != "" || best < 0 {
+		return match
 	}
 	ftag := c.j.fop.op.tag
 	for _, d := range bestDiffs {
@@ -1104,7 +1114,6 @@ func (m *monitor) ringCaseInner(c *ringCtx) {
 		r.Inconclusive(fmt.Sprintf("ring layer: trace diverged before the fault point: %s/%s call#%d expected %s", c.kind, c.opName(), fc.k, c.call.Class()))
 		return
 	}
-	r.Count("fault_runs_fired", 1)
 	r.Count("ring_fault_runs_fired", 1)
 	r.Count("ring_mode:"+fc.mode.String(), 1)
 	r.SetAdd("ring_followup_kinds", c.fu.kind)
@@ -1139,14 +1148,14 @@ func (m *monitor) ringCaseInner(c *ringCtx) {
 			// the process lives on: what the SAME ring handle shows (old or new; which of them is not demanded to agree with the storage)
 			oa := observeRing(func() (api.KeyRing, error) { return ringA, nil })
 			r.Count("ring_same_handle_views_checked", 1)
-			m.judge(c, "after-error(same-handle)", oa, &oRing{err: "not read"}, names0, cands0, nil, nil)
+			m.judge(c, "after-error(same-handle)", oa, &oRing{err: "not read"}, names0, cands0, nil, nil, "")
 		} else {
 			r.Count("ring_fault_absorbed_op_succeeded", 1)
 		}
 	}
 	// restart view of the post-fault storage
 	o1, ob1 := m.observeWorld(c, afterFault, live)
-	outcome1 := m.judge(c, afterFault, o1, ob1, names0, cands0, by0, nil)
+	outcome1 := m.judge(c, afterFault, o1, ob1, names0, cands0, by0, nil, "old")
 	sample["after_fault"] = outcome1
 	if outcome1 == "" {
 		return // reported; the follow-ups cannot be judged against a state that is neither
@@ -1266,7 +1275,7 @@ func (m *monitor) ringCaseInner(c *ringCtx) {
 	phase := "after-followup(" + c.fu.kind + "@" + c.handle + ")"
 	o2, ob2 := m.observeWorld(c, phase, live)
 	r.Count("ring_reopen_views_compared", 1)
-	final := m.judge(c, phase, o2, ob2, names, cands, by, touched)
+	final := m.judge(c, phase, o2, ob2, names, cands, by, touched, outcome1)
 	sample["followups_done"] = len(doneOps)
 	sample["after_followups_and_reopen"] = final
 	if final != "" {
@@ -1274,8 +1283,17 @@ func (m *monitor) ringCaseInner(c *ringCtx) {
 		if len(doneOps) == len(c.fu.ops) {
 			r.Count("ring_histories_fully_reflected", 1)
 		}
+		if outcome1 == "old" && final == "new" && c.fu.kind != "retry" {
+			// the failed operation took effect later, with a follow-up that did not ask for it: its key is "completely the new
+			// one", which is all the property text demands; counted as an observation (see notes), not a violation
+			r.Count("ring_observed_failed_operation_took_effect_with_a_later_write", 1)
+		}
 	}
-	r.SampleN("ring-case:"+c.kind+":"+fc.mode.String()+":"+c.handle, 1, sample)
+	how := "error"
+	if crash {
+		how = "crash"
+	}
+	r.SampleN("ring-case:"+how+":"+c.handle, 2, sample)
 }
 
 // candidatesBefore: the expected content right after the faulted operation (no follow-up yet).
